@@ -121,6 +121,50 @@ def run_conc(ctx, rpc, tag, kinds, nemit=2, form="rvalue", max_paths=None, extra
     return res
 
 
+# ---- finest grain: spec/Signal/SignalFine.tla, same replayer with vsched yield_after ("fine":true) ----
+def fine_pend(pc):
+    if pc == "done":
+        return "done"
+    pre, _, site = pc.partition("_")
+    if site.startswith("cas"):
+        site = "cas"
+    return "%s:%s" % (pre, site)
+
+
+def run_fine(ctx, rpc, tag, kinds, nemit=1, form="rvalue", max_paths=None):
+    nm = {"%s%d" % (CKPREFIX[k], i + 1): k for i, k in enumerate(kinds)}
+    consts = {}
+    for k, cname in CKCONST.items():
+        consts[cname] = "{" + ", ".join(n for n, kk in nm.items() if kk == k) + "}"
+    consts["NEmit"] = nemit
+    consts["Form"] = '"%s"' % form
+    cbs = [n for n, k in nm.items() if "cb" in k]
+
+    def hdr(k, st0):
+        return {"form": form, "nemit": nemit, "kinds": nm, "order": list(reversed(conc_chain(st0))), "fine": True}
+
+    def pj(st):
+        lst = dict(st["lst"] or {})
+        pend = {"C": fine_pend(st["cpc"])}
+        for t, pc in (st["tpc"] or {}).items():
+            pend[t] = fine_pend(pc)
+        return {
+            "chain": conc_chain(st), "refs": st["refs"], "cur": st["cur"], "stor": st["stor"], "cvar": st["cvar"],
+            "lst": {l: ("out" if v == "dout" else v) for l, v in lst.items()},
+            "received": st["received"] or {}, "pend": pend, "casn": st["casn"] if st["cpc"] in ("pre_cas", "post_cas_fail") else "null",
+            "exp": {l: st["nxt"][l] for l in lst if lst[l] == "casing"},
+            "cblive": {c: (1 if lst[c] in ("casing", "waiting", "out", "dout") else 0) for c in cbs},
+        }
+    must = ["CXchg", "CLocRun", "CLocDrop", "TCas", "TLocDone"]
+    res, g = graph_replay(ctx, "Signal", "SignalFine", "SignalFine_base.cfg", tag, rpc, pj, header_fn=hdr,
+                          constants=consts, must_take=must, max_paths=max_paths, tlc_kw={"workers": 4})
+    try:
+        os.remove(os.path.join(vlib.BUILD, "%s_%s_liveness.dot" % (ctx.prop, tag)))
+    except OSError:
+        pass
+    return res
+
+
 def fast_cover_paths(g, rng, max_paths=None, full=True, max_len=400, want_terminal=True):
     """Same contract as vlib.cover_paths (edge-covering set of root-to-terminal paths; returns
     (paths, covered, total)) in O(total path length): vlib's version searches the nearest uncovered edge
@@ -292,6 +336,9 @@ def run(ctx):
 
     def conc(tag, kinds, **kw):
         jobs.append((tag, lambda c: run_conc(c, rpc, tag, kinds, **kw)))
+
+    def fine(tag, kinds, **kw):
+        jobs.append((tag, lambda c: run_fine(c, rpc, tag, kinds, **kw)))
     LGO, LGT, LFT = ["loop", "gated", "cbonce"], ["loop", "gated", "cbt"], ["loop", "cbf", "cbt"]
     # edge covers of 10^4..10^5-edge graphs: see fast_cover_paths (same contract as vlib.cover_paths, which
     # framework.graph_replay looks up at call time; this process runs only this check)
@@ -311,6 +358,10 @@ def run(ctx):
         conc("x_plt", ["prel", "thrl", "thrcbt"], nemit=2, max_paths=400)
         conc("x_all", ["precbt", "thrl", "thrl"], nemit=2, form="lvalue", max_paths=400)
         conc("x_pfl", ["prel", "thrcbf", "thrl"], nemit=2, max_paths=400)
+        # the same at the finest grain (plain code after every atomic operation is a step of its own)
+        fine("y_l", ["thrl"], nemit=2)
+        fine("y_lt", ["thrl", "thrcbt"], nemit=1, form="lvalue")
+        fine("y_pl", ["prel", "thrl"], nemit=2)
         extra = conc_mixes(3)
         ctx.rng.shuffle(extra)
         for i, m in enumerate(extra[:3]):
@@ -338,6 +389,11 @@ def run(ctx):
         conc("x4b", ["prel", "thrl", "thrcbt", "thrcbf"], nemit=2)
         conc("x4c", ["thrl", "thrl", "thrl", "precbf"], nemit=2)
         conc("x3e", ["prel", "thrl", "thrl"], nemit=3)
+        for i, m in enumerate(conc_mixes(2)):
+            fine("y%d" % i, m, nemit=2, form="lvalue" if i % 2 else "rvalue")
+        fine("y3a", ["prel", "thrl", "thrcbt"], nemit=2)
+        fine("y3b", ["thrl", "thrl", "precbt"], nemit=1)
+        fine("y3c", ["thrl", "thrcbf", "thrcbt"], nemit=1, form="lvalue")
     run_jobs(ctx, jobs)
     ctx.assume("the collector is called by one thread at a time (documented as not MT safe, signal.h:91,243); "
                "listeners do not call the collector or drop handles themselves")
